@@ -122,20 +122,31 @@ def e2e_half(ctx, rng):
 
     scs, meta = [], []
 
-    def add(label, record, endpoint, name, port, item, item2, refused=True):
+    def add(label, record, endpoint, name, port, item, item2, refused=True, kill=None):
+        """kill: None | "before" (the key-keeper state task is dead before the connection is made) |
+        "between" (it dies after the 2nd request, on the open connection)"""
         reqs = e2e_requests(rng, 5)
         raws = []
         for j, r in enumerate(reqs):
-            if j == 1:      # the rules change while the connection stays open (a later request sees the new ones)
+            if j == 1 and kill == "between":
+                raws.append(e2e.req(r["raw"], ops_after=[{"op": "kill_actor", "actor": "key_keeper"}]))
+            elif j == 1 and kill is None:
+                # the rules change while the connection stays open (a later request sees the new ones)
                 raws.append(e2e.req(r["raw"], ops_after=[{"op": "set_rules", "endpoint": endpoint, "item": item2}]))
             else:
                 raws.append(e2e.req(r["raw"]))
         knobs = {"proxy_port": port} if port else {}
+        if kill:
+            knobs["killable"] = ["key_keeper"]
+        if kill == "before":
+            knobs["ops_before"] = [{"op": "kill_actor", "actor": "key_keeper"}]
         rules = {endpoint: item} if item is not None else None
         scs.append(e2e.scenario("%s rules=%s then %s" % (label, item and (item["mode"], item["defaultAccess"]),
+                                                         ("key keeper killed " + kill) if kill else
                                                          item2 and (item2["mode"], item2["defaultAccess"])),
                                 [e2e.conn(raws, audit=record)], rules=rules, **knobs))
-        meta.append({"label": label, "record": record, "endpoint": endpoint, "rules": item, "rules_after_2nd_request": item2,
+        meta.append({"label": label, "record": record, "endpoint": endpoint, "rules": item,
+                     "rules_after_2nd_request": None if kill else item2, "key_keeper_killed": kill,
                      "requests": [(r["method"], r["target"]) for r in reqs], "refused": refused})
 
     for label, record, endpoint, name, port in callers:
@@ -150,6 +161,11 @@ def e2e_half(ctx, rng):
         d1 = json.loads(G.doc_to_json(G.gen_doc(rng, malformed=rng.random() < 0.2)))
         d2 = rng.choice([None, grant(name, rng.choice(modes), rng.choice(defaults))])
         add(label, record, endpoint, name, port, d1, d2)
+    # the key-keeper state task dies (rules lookup fails): still nothing of these callers may be relayed
+    for label, record, endpoint, name, port in callers:
+        for kill in ("before", "between"):
+            add(label, record, endpoint, name, port,
+                rng.choice([None, grant(name, rng.choice(modes), rng.choice(defaults))]), None, kill=kill)
     # controls: the same requests from an elevated caller ARE relayed (the harness can see a relay)
     for dest, endpoint in ((e2e.WIRESERVER, "wireserver"), (e2e.HOSTGA, "hostga")):
         for mode in ("disabled", "audit", "enforce"):
@@ -159,7 +175,8 @@ def e2e_half(ctx, rng):
     results = e2e.run_scenarios(ctx, scs, timeout=900, shards=4)
     failures, disagreements = [], []
     stats = {"scenarios": len(scs), "requests": 0, "refused_403": 0, "exempt_requests_refused": 0,
-             "control_requests_relayed": 0, "self_destination_requests": 0}
+             "control_requests_relayed": 0, "self_destination_requests": 0,
+             "refused_500_key_keeper_dead": 0, "scenarios_key_keeper_killed": 0}
     exempt = {(m, u.lower()) for m, u in exempt_pairs()}
     for sc, mt, r in zip(scs, meta, results):
         if not r.get("ok") or r.get("panics"):
@@ -174,16 +191,24 @@ def e2e_half(ctx, rng):
         if mt["refused"]:
             if "self" in mt["label"]:
                 stats["self_destination_requests"] += len(st)
-            bad = [(q, s) for q, s in zip(mt["requests"], st + [None] * (len(mt["requests"]) - len(st))) if s != 403]
+            # refused = 403; once the key keeper is dead the handler may also answer 500 (rules lookup failure)
+            dead_from = {None: 99, "before": 0, "between": 2}[mt["key_keeper_killed"]]
+            padded = st + [None] * (len(mt["requests"]) - len(st))
+            bad = [(q, s) for j, (q, s) in enumerate(zip(mt["requests"], padded))
+                   if not (s == 403 or (s == 500 and j >= dead_from))]
             stats["refused_403"] += sum(1 for s in st if s == 403)
+            stats["refused_500_key_keeper_dead"] += sum(1 for s in st if s == 500)
+            stats["scenarios_key_keeper_killed"] += mt["key_keeper_killed"] is not None
             stats["exempt_requests_refused"] += sum(1 for q, s in zip(mt["requests"], st)
                                                     if s == 403 and (q[0], q[1].lower()) in exempt)
             if bad or any(nbytes.values()):
                 (m, t), s = bad[0] if bad else (mt["requests"][0], "403")
                 failures.append({"case": case, "impl": {"statuses": st, "upstream_bytes": nbytes},
-                                 "why": "end to end (%s): %s %s answered %s and %d bytes reached the mock hosts; a request of this caller must be refused with 403 and not one byte relayed (rules %s, after the 2nd request %s)" % (
+                                 "why": "end to end (%s): %s %s answered %s and %d bytes reached the mock hosts; a request of this caller must be refused (403; 500 when the rules lookup fails) and not one byte relayed (rules %s, after the 2nd request %s)" % (
                                      mt["label"], m, t, s, sum(nbytes.values()),
-                                     mt["rules"] and mt["rules"]["mode"], mt["rules_after_2nd_request"] and mt["rules_after_2nd_request"]["mode"])})
+                                     mt["rules"] and mt["rules"]["mode"],
+                                     ("key keeper killed " + mt["key_keeper_killed"]) if mt["key_keeper_killed"] else
+                                     (mt["rules_after_2nd_request"] and mt["rules_after_2nd_request"]["mode"]))})
         else:
             relayed = sum(1 for s in st if s == 200)
             stats["control_requests_relayed"] += relayed
@@ -328,7 +353,7 @@ def run(ctx):
         "evaluations": total,
         "distinct_nontrivial": len({(json.dumps(doc, sort_keys=True), k["ip"], k["port"], k["claims"]["el"], k["url"]) for doc, cases in groups for k in cases}),
         "traces_validated_against_impl": total - len(disagreements),
-        "rule": "authorize() on (destination, claims, URL, rule set) tuples: %d generated rule documents (C02 generator incl. malformed / absent) x %d requests, destinations drawn from the four endpoints and 13 near misses, elevated 45%%; plus the full product 17 destinations x elevated x {disabled,audit,enforce,unknown} x {allow,deny} with a rule set that grants the caller by name, and rules absent; plus from_audit_entry on 9 is_admin values; plus end-to-end scenarios (7 caller/destination shapes x rules absent + 5 modes, generated documents, 5 keep-alive requests each incl. the signature-exempt uploads and case variants, set_rules after the 2nd request, 6 relayed controls); distinct = distinct (document, destination, elevated, URL)" % (n_docs, per_doc),
+        "rule": "authorize() on (destination, claims, URL, rule set) tuples: %d generated rule documents (C02 generator incl. malformed / absent) x %d requests, destinations drawn from the four endpoints and 13 near misses, elevated 45%%; plus the full product 17 destinations x elevated x {disabled,audit,enforce,unknown} x {allow,deny} with a rule set that grants the caller by name, and rules absent; plus from_audit_entry on 9 is_admin values; plus end-to-end scenarios (7 caller/destination shapes x rules absent + 5 modes, generated documents, 5 keep-alive requests each incl. the signature-exempt uploads and case variants, set_rules after the 2nd request, 14 scenarios with the key-keeper state task killed before / between requests, 6 relayed controls); distinct = distinct (document, destination, elevated, URL)" % (n_docs, per_doc),
         "exhaustive": False,
         "samples": samples,
         "input_distribution": dict(dist, end_to_end=e2e_stats),
